@@ -478,3 +478,43 @@ def check_std_fds(ck, prog, config, clause):
               'diagnostics are written to descriptor 2 and end up inside that file (zck -vv -o out in 2>&-: log lines in '
               'front of the magic, exit 0)' % (tool, bad.line), fn.file, bad.line if bad else fn.line, config=config)
     return n
+
+
+# ------------------------------------------------------------------ R9.narrow-compare
+def check_narrow_compare(ck, prog, config, clause, units, what='file-supplied'):
+    """No comparison in the given units compares a value after an integer conversion to a narrower type
+    (explicit cast or implicit conversion of an operand): the comparison then holds modulo 2^width, so a
+    count, size or type that differs from the expected one by a multiple of 2^32 passes an equality or
+    range gate.  (A narrowing that is itself guarded is written as a range test on the wide value; the
+    repository has no comparison on a narrowed operand today, so every instance is reported.)"""
+    from ..ir import type_width
+    n = 0
+    bad = []
+    for f in sorted(prog.funcs.values(), key=lambda x: x.qname):
+        if not any(f.unit.endswith(u) for u in units):
+            continue
+        for ex in all_exprs(f):
+            for nd in walk(ex):
+                if nd.k == 'bin' and nd.op in ('==', '!=', '<', '>', '<=', '>='):
+                    n += 1
+                    for a in nd.a:
+                        b = a
+                        while b is not None and b.k == 'paren':
+                            b = b.a[0]
+                        if b is None or b.k != 'cast' or not b.a:
+                            continue
+                        src = b.a[0]
+                        ws, wd = type_width(src.t, src.dt), type_width(b.t, b.dt)
+                        if ws and wd and wd < ws and const_value(src) is None:
+                            bad.append((f, nd, src, b))
+    for f, nd, src, b in bad:
+        ck.ob(clause, 'R9.narrow-compare', f.name, 'cmp@%s' % show(nd)[:40], False,
+              '`%s`: the operand %s (%s) is converted to %s before the comparison; values that differ by a multiple of '
+              '2^%d compare equal, so a %s value that does not fit is accepted instead of rejected' % (
+                  show(nd)[:80], show(src)[:30], src.t, b.t, type_width(b.t, b.dt), what), nd.file or f.file, nd.line,
+              config=config)
+    if not bad:
+        ck.ob(clause, 'R9.narrow-compare', '*', 'comparisons', True,
+              '%d comparisons in %s: no operand is narrowed before it is compared' % (n, ', '.join(sorted(units))),
+              config=config)
+    ck.min_instances('comparisons inspected for narrowed operands', n, 20)
